@@ -131,6 +131,7 @@ def run_time_indep(case):
 
 
 def _strip_time(spec):
+    spec["net"].pop("mlp", None)  # a real MLP depends on t: this sub-check needs a time-independent network
     f = spec["net"]["field"]
     for k in range(f["m"]):
         for term in f["sin"][k]:
